@@ -149,8 +149,13 @@ def krome_file(draw, nmax=12):
             toks.append(t.lower() if spell == "lower" else t.upper() if spell == "upper" else t)
         return cols, "@format:" + ",".join(toks)
 
-    order, fl = new_format()
-    lines.append(fl)
+    standard = draw(st.integers(0, 3)) == 0
+    if standard:
+        # no directive: KROME's standard column layout
+        order = ["idx", "r", "r", "r", "p", "p", "p", "p", "tmin", "tmax", "rate"]
+    else:
+        order, fl = new_format()
+        lines.append(fl)
     for i in range(n):
         k = draw(st.integers(0, 9))
         if k == 0:
@@ -176,7 +181,7 @@ def krome_file(draw, nmax=12):
         lines.append(pad[0] + F.encode_krome(lr, order, tmin[0], tmax[0], rate) + pad[1])
         lr["rate"] = rate
         expected.append(lr)
-    return {"fmt": "krome", "lines": lines, "expected": expected, "trailing_newline": draw(st.booleans())}
+    return {"fmt": "krome", "lines": lines, "expected": expected, "trailing_newline": draw(st.booleans()), "standard_layout": standard}
 
 
 @st.composite
